@@ -74,7 +74,7 @@ func sequenceScenario(logN, residual int, first seqKind) engine.Scenario {
 		uni.Seed(c, name, second.name)
 		k := cfg{LogN: logN, LogSlots: logN - 1, Residual: residual}
 		resLit, btpLit := k.literals()
-		s, rejected := build(c, name, resLit, btpLit, nil)
+		s, rejected := build(c, name, resLit, btpLit, nil, false)
 		if c.Failed() {
 			return
 		}
